@@ -10,6 +10,13 @@ PROPS = [json.loads(l)["id"] for l in open(V / "properties.jsonl")]
 def sh(cmd, **kw):
     return subprocess.run(cmd, capture_output=True, text=True, **kw)
 
+# properties whose checks exercise a module (all 20 with --all)
+BY_MODULE = {"core.py": ["C01", "C02", "C03", "C04", "C05", "C06", "C07", "C08", "C09"], "minerals.py": ["C01", "C05", "C06", "C07", "C08", "C09", "C10", "C17"],
+             "utils.py": ["C01", "C06", "C09", "C14", "C18"], "pathlines.py": ["C18"], "tensors.py": ["C10", "C11", "C12"],
+             "stats.py": ["C15"], "diagnostics.py": ["C12", "C13", "C14"], "geometry.py": ["C13", "C14", "C18", "C20"], "velocity.py": ["C18", "C06"],
+             "io.py": ["C16", "C19"]}
+ALL = "--all" in sys.argv
+sys.argv = [a for a in sys.argv if a != "--all"]
 ids = sys.argv[1:] or sorted(p.name for p in H.iterdir() if (p / "patch.diff").exists())
 for hid in ids:
     d = H / hid
@@ -22,7 +29,9 @@ for hid in ids:
         if ap.returncode != 0:
             out["apply_error"] = ap.stderr[-300:]
         else:
-            for pr in PROPS:
+            meta = json.loads((d / "meta.json").read_text())
+            props = PROPS if ALL else sorted({p_ for m_ in meta.get("modules", []) for p_ in BY_MODULE.get(m_, PROPS)})
+            for pr in props:
                 ev = V / "evidence" / f"{pr}.json"
                 saved = ev.read_bytes() if ev.exists() else None
                 try:
